@@ -144,6 +144,13 @@ def cell_job(job):
                 judge('derive-base-key', use_ok, r, new_tag=t, new_kind=(False, False))
         # ---- roles that create an object of this kind in this state
         t = newtag(); r = call('C_CreateObject', s=s, tmpl=T(KT[cls], CKA_TOKEN=on_token, CKA_PRIVATE=private, CKA_LABEL=t)); judge('create', can_write(on_token, private), r, new_tag=t, new_kind=kind)
+        # the order of the entries of a template carries no meaning: the same creation with the placement attributes first, last and reversed
+        for oname in ('private-token-first', 'class-last', 'reversed'):
+            t = newtag(); a = dict(KT[cls], CKA_TOKEN=on_token, CKA_PRIVATE=private, CKA_LABEL=t); items = list(a.items())
+            if oname == 'private-token-first': items.sort(key=lambda kv: 0 if kv[0] == 'CKA_PRIVATE' else 1 if kv[0] == 'CKA_TOKEN' else 2)
+            elif oname == 'class-last': items.sort(key=lambda kv: 2 if kv[0] == 'CKA_CLASS' else 1 if kv[0] in ('CKA_KEY_TYPE', 'CKA_CERTIFICATE_TYPE') else 0)
+            else: items.reverse()
+            r = call('C_CreateObject', s=s, tmpl=x.T(items)); judge(f'create(template order: {oname})', can_write(on_token, private), r, new_tag=t, new_kind=kind)
         if cls == 'aes':
             t = newtag(); r = call('C_GenerateKey', s=s, mech=x.M('CKM_AES_KEY_GEN'), tmpl=x.T({'CKA_VALUE_LEN': 16, 'CKA_TOKEN': on_token, 'CKA_PRIVATE': private, 'CKA_LABEL': t})); judge('generate-key', can_write(on_token, private), r, new_tag=t, new_kind=kind)
             if blob_aes or True:
